@@ -97,6 +97,58 @@ Definition regoff_shift (k : extk) (sbit : bool) (amount : Z) : option bshift :=
 Lemma X64 s n : wf s -> Xw s n 64 = X s n.
 Proof. intros Hw. unfold Xw. apply Z.mod_small. unfold X. destruct (n =? 31); [lia|apply (proj1 Hw)]. Qed.
 
+(* arithmetic of ExtendReg at N = 64 for the four extend kinds of register-offset addressing *)
+Lemma s_shl_small v a : 0 <= a < 64 -> s_shl 64 v (U 64 a) = (v * 2 ^ a) mod 2 ^ 64.
+Proof.
+  intros Ha. unfold s_shl, U. rewrite (Z.mod_small a) by lia. destruct (Z.leb_spec 64 a); [lia|reflexivity].
+Qed.
+Lemma pow2_small a : (a = 0 \/ a = 1 \/ a = 2 \/ a = 3) -> 2 ^ a = 1 \/ 2 ^ a = 2 \/ 2 ^ a = 4 \/ 2 ^ a = 8.
+Proof. intros [-> | [-> | [-> | ->]]]; auto. Qed.
+
+Lemma ExtendReg_uxtw s rm a : wf s -> (a = 0 \/ a = 1 \/ a = 2 \/ a = 3) ->
+  ExtendReg s 64 rm XUXTW a = (X s rm mod 2 ^ 32 * 2 ^ a) mod 2 ^ 64.
+Proof.
+  intros Hw Ha. unfold ExtendReg. rewrite X64 by assumption. cbn [ext_len ext_unsigned].
+  assert (Hmin : Z.min 32 (64 - a) = 32) by lia. rewrite Hmin. reflexivity.
+Qed.
+Lemma ExtendReg_sxtw s rm a : wf s -> (a = 0 \/ a = 1 \/ a = 2 \/ a = 3) ->
+  ExtendReg s 64 rm XSXTW a = (S 32 (X s rm mod 2 ^ 32) * 2 ^ a) mod 2 ^ 64.
+Proof.
+  intros Hw Ha. unfold ExtendReg. rewrite X64 by assumption. cbn [ext_len ext_unsigned].
+  assert (Hmin : Z.min 32 (64 - a) = 32) by lia. rewrite Hmin. reflexivity.
+Qed.
+Lemma ExtendReg_uxtx s rm a : wf s -> (a = 0 \/ a = 1 \/ a = 2 \/ a = 3) ->
+  ExtendReg s 64 rm XUXTX a = (X s rm * 2 ^ a) mod 2 ^ 64.
+Proof.
+  intros Hw Ha. unfold ExtendReg. rewrite X64 by assumption. cbn [ext_len ext_unsigned].
+  assert (HX : 0 <= X s rm < 2 ^ 64) by (unfold X; destruct (rm =? 31); [lia|apply (proj1 Hw)]).
+  assert (Hmin : Z.min 64 (64 - a) = 64 - a) by lia. rewrite Hmin.
+  destruct Ha as [-> | [-> | [-> | ->]]].
+  - change (64 - 0) with 64. change (2 ^ 0) with 1. rewrite (Z.mod_small (X s rm)) by exact HX. reflexivity.
+  - change (64 - 1) with 63. change (2 ^ 1) with 2. change (2 ^ 63) with 9223372036854775808. change (2 ^ 64) with 18446744073709551616 in *. lia.
+  - change (64 - 2) with 62. change (2 ^ 2) with 4. change (2 ^ 62) with 4611686018427387904. change (2 ^ 64) with 18446744073709551616 in *. lia.
+  - change (64 - 3) with 61. change (2 ^ 3) with 8. change (2 ^ 61) with 2305843009213693952. change (2 ^ 64) with 18446744073709551616 in *. lia.
+Qed.
+Lemma ExtendReg_sxtx s rm a : wf s -> (a = 0 \/ a = 1 \/ a = 2 \/ a = 3) ->
+  ExtendReg s 64 rm XSXTX a = (X s rm * 2 ^ a) mod 2 ^ 64.
+Proof.
+  intros Hw Ha. unfold ExtendReg. rewrite X64 by assumption. cbn [ext_len ext_unsigned].
+  assert (HX : 0 <= X s rm < 2 ^ 64) by (unfold X; destruct (rm =? 31); [lia|apply (proj1 Hw)]).
+  assert (Hmin : Z.min 64 (64 - a) = 64 - a) by lia. rewrite Hmin. unfold S.
+  destruct Ha as [-> | [-> | [-> | ->]]].
+  - change (64 - 0) with 64. change (2 ^ 0) with 1. change (2 ^ (64 - 1)) with 9223372036854775808. change (2 ^ 64) with 18446744073709551616 in *.
+    destruct (Z.ltb_spec (X s rm mod 18446744073709551616) 9223372036854775808); lia.
+  - change (64 - 1) with 63. change (2 ^ 1) with 2. change (2 ^ 63) with 9223372036854775808. change (2 ^ (63 - 1)) with 4611686018427387904.
+    change (2 ^ 64) with 18446744073709551616 in *.
+    destruct (Z.ltb_spec (X s rm mod 9223372036854775808) 4611686018427387904); lia.
+  - change (64 - 2) with 62. change (2 ^ 2) with 4. change (2 ^ 62) with 4611686018427387904. change (2 ^ (62 - 1)) with 2305843009213693952.
+    change (2 ^ 64) with 18446744073709551616 in *.
+    destruct (Z.ltb_spec (X s rm mod 4611686018427387904) 2305843009213693952); lia.
+  - change (64 - 3) with 61. change (2 ^ 3) with 8. change (2 ^ 61) with 2305843009213693952. change (2 ^ (61 - 1)) with 1152921504606846976.
+    change (2 ^ 64) with 18446744073709551616 in *.
+    destruct (Z.ltb_spec (X s rm mod 2305843009213693952) 1152921504606846976); lia.
+Qed.
+
 Lemma regoff_den s st rm option (sbit : bool) amount :
   wf s -> emb s st -> 0 <= rm < 32 -> (option = 2 \/ option = 3 \/ option = 6 \/ option = 7) ->
   (amount = 0 \/ amount = 1 \/ amount = 2 \/ amount = 3) -> (sbit = false -> amount = 0) ->
@@ -107,10 +159,11 @@ Lemma regoff_den s st rm option (sbit : bool) amount :
              den (st_env st) o1 = Ok (mkc 64 (ExtendReg s 64 rm k amount)).
 Proof.
   intros Hw He Hm Hopt Ham Hsb k.
+  assert (Ha64 : 0 <= amount < 64) by lia.
   assert (HX : 0 <= X s rm < 2 ^ 64) by (unfold X; destruct (rm =? 31); [lia|apply (proj1 Hw)]).
-  unfold ExtendReg. rewrite X64 by assumption.
-  destruct Hopt as [-> | [-> | [-> | ->]]]; subst k; cbn [decode_ext Z.eqb Pos.eqb ext_is_x regoff_shift bext_of ext_len ext_unsigned].
+  destruct Hopt as [-> | [-> | [-> | ->]]]; subst k.
   - (* UXTW *)
+    change (decode_ext 2) with XUXTW. rewrite ExtendReg_uxtw by assumption. cbn [ext_is_x regoff_shift bext_of].
     destruct (xzr_xsp_range false rm Hm) as [Hr _].
     destruct (reg_get_den s st _ Hw He Hr) as (e & G & B & D). rewrite G. cbn [bind shift_].
     rewrite reg_bits_zr in B, D. cbn [dsize] in B, D. rewrite areg_val_zr in D by assumption. unfold Xw in D. cbn [dsize] in D.
@@ -118,24 +171,22 @@ Proof.
     rewrite mk_ext_ok by (rewrite B; lia). cbn [unwrap bind]. rewrite mk_bin_ok by reflexivity. cbn [unwrap].
     eexists; split; [reflexivity|]. split; [reflexivity|].
     assert (Dz : den (st_env st) (EExt Zext 64 e) = Ok (mkc 64 (X s rm mod 2 ^ 32))) by (rewrite (den_ext _ _ _ _ _ D); reflexivity).
-    rewrite (den_bin _ Shl _ _ 64 _ (U 64 amount) Dz) by (apply den_const; lia). cbn [sp_bin]. unfold s_shl, U.
-    replace (amount mod 2 ^ 64) with amount by (symmetry; apply Z.mod_small; lia).
-    destruct (Z.leb_spec 64 amount) as [Hbig|_]; [lia|]. f_equal. f_equal.
-    destruct Ham as [-> | [-> | [-> | ->]]]; vm_compute Z.min; change (2 ^ 0) with 1; change (2 ^ 1) with 2; change (2 ^ 2) with 4; change (2 ^ 3) with 8; cbn [Z.mul Z.pow Z.pow_pos Pos.iter Z.mul Pos.mul]; lia.
+    rewrite (den_bin _ Shl _ _ 64 _ (U 64 amount) Dz) by (apply den_const; lia). cbn [sp_bin].
+    rewrite s_shl_small by assumption. reflexivity.
   - (* LSL / UXTX *)
+    change (decode_ext 3) with XUXTX. rewrite ExtendReg_uxtx by assumption. cbn [ext_is_x regoff_shift].
     destruct (xzr_xsp_range true rm Hm) as [Hr _].
     destruct (reg_get_den s st _ Hw He Hr) as (e & G & B & D). rewrite G. cbn [bind].
     rewrite reg_bits_zr in B, D. cbn [dsize] in B, D. rewrite areg_val_zr, X64 in D by assumption.
     destruct sbit.
     + cbn [shift_]. unfold lsl_. rewrite mk_bin_ok by (rewrite B; reflexivity). cbn [unwrap].
       eexists; split; [reflexivity|]. split; [exact B|].
-      rewrite (den_bin _ Shl _ _ 64 _ (U 64 amount) D) by (apply den_const; lia). cbn [sp_bin]. unfold s_shl, U.
-      replace (amount mod 2 ^ 64) with amount by (symmetry; apply Z.mod_small; lia).
-      destruct (Z.leb_spec 64 amount) as [Hbig|_]; [lia|]. f_equal. f_equal.
-      destruct Ham as [-> | [-> | [-> | ->]]]; vm_compute Z.min; change (2 ^ 0) with 1; change (2 ^ 1) with 2; change (2 ^ 2) with 4; change (2 ^ 3) with 8; cbn [Z.mul Z.pow Z.pow_pos Pos.iter Pos.mul]; lia.
-    + rewrite (Hsb eq_refl). eexists; split; [reflexivity|]. split; [exact B|]. rewrite D. f_equal. f_equal.
-      vm_compute Z.min. change (2 ^ 0) with 1. lia.
+      rewrite (den_bin _ Shl _ _ 64 _ (U 64 amount) D) by (apply den_const; lia). cbn [sp_bin].
+      rewrite s_shl_small by assumption. reflexivity.
+    + rewrite (Hsb eq_refl). eexists; split; [reflexivity|]. split; [exact B|]. rewrite D.
+      change (2 ^ 0) with 1. rewrite Z.mul_1_r, Z.mod_small by exact HX. reflexivity.
   - (* SXTW *)
+    change (decode_ext 6) with XSXTW. rewrite ExtendReg_sxtw by assumption. cbn [ext_is_x regoff_shift bext_of].
     destruct (xzr_xsp_range false rm Hm) as [Hr _].
     destruct (reg_get_den s st _ Hw He Hr) as (e & G & B & D). rewrite G. cbn [bind shift_].
     rewrite reg_bits_zr in B, D. cbn [dsize] in B, D. rewrite areg_val_zr in D by assumption. unfold Xw in D. cbn [dsize] in D.
@@ -143,24 +194,17 @@ Proof.
     rewrite mk_ext_ok by (rewrite B; lia). cbn [unwrap bind]. rewrite mk_bin_ok by reflexivity. cbn [unwrap].
     eexists; split; [reflexivity|]. split; [reflexivity|].
     assert (Dz : den (st_env st) (EExt Sext 64 e) = Ok (mkc 64 (s_sext 64 32 (X s rm mod 2 ^ 32)))) by (rewrite (den_ext _ _ _ _ _ D); reflexivity).
-    rewrite (den_bin _ Shl _ _ 64 _ (U 64 amount) Dz) by (apply den_const; lia). cbn [sp_bin]. unfold s_shl, s_sext, U, S.
-    replace (amount mod 2 ^ 64) with amount by (symmetry; apply Z.mod_small; lia).
-    destruct (Z.leb_spec 64 amount) as [Hbig|_]; [lia|]. f_equal. f_equal.
-    destruct Ham as [-> | [-> | [-> | ->]]]; vm_compute Z.min; change (2 ^ 0) with 1; change (2 ^ 1) with 2; change (2 ^ 2) with 4; change (2 ^ 3) with 8; cbn [Z.mul Z.pow Z.pow_pos Pos.iter Pos.mul Z.sub Z.pos_sub Pos.pred_double];
-      change (2 ^ 31) with 2147483648; change (2 ^ 32) with 4294967296; change (2 ^ 64) with 18446744073709551616;
-      destruct (Z.ltb_spec (X s rm mod 4294967296 mod 4294967296) 2147483648); destruct (Z.ltb_spec (X s rm mod 4294967296) 2147483648); lia.
+    rewrite (den_bin _ Shl _ _ 64 _ (U 64 amount) Dz) by (apply den_const; lia). cbn [sp_bin].
+    rewrite s_shl_small by assumption. unfold s_sext, U. rewrite Z.mul_mod_idemp_l by lia. reflexivity.
   - (* SXTX *)
+    change (decode_ext 7) with XSXTX. rewrite ExtendReg_sxtx by assumption. cbn [ext_is_x regoff_shift bext_of].
     destruct (xzr_xsp_range true rm Hm) as [Hr _].
     destruct (reg_get_den s st _ Hw He Hr) as (e & G & B & D). rewrite G. cbn [bind shift_].
     rewrite reg_bits_zr in B, D. cbn [dsize] in B, D. rewrite areg_val_zr, X64 in D by assumption.
     rewrite B. change (64 <? 64) with false. cbv iota. cbn [bind]. rewrite mk_bin_ok by (rewrite B; reflexivity). cbn [unwrap].
     eexists; split; [reflexivity|]. split; [exact B|].
-    rewrite (den_bin _ Shl _ _ 64 _ (U 64 amount) D) by (apply den_const; lia). cbn [sp_bin]. unfold s_shl, U, S.
-    replace (amount mod 2 ^ 64) with amount by (symmetry; apply Z.mod_small; lia).
-    destruct (Z.leb_spec 64 amount) as [Hbig|_]; [lia|]. f_equal. f_equal.
-    destruct Ham as [-> | [-> | [-> | ->]]]; vm_compute Z.min; change (2 ^ 0) with 1; change (2 ^ 1) with 2; change (2 ^ 2) with 4; change (2 ^ 3) with 8; cbn [Z.mul Z.pow Z.pow_pos Pos.iter Pos.mul Z.sub Z.pos_sub Pos.pred_double];
-      change (2 ^ 64) with 18446744073709551616;
-      match goal with |- context [?a <? ?b] => destruct (Z.ltb_spec a b) end; lia.
+    rewrite (den_bin _ Shl _ _ 64 _ (U 64 amount) D) by (apply den_const; lia). cbn [sp_bin].
+    rewrite s_shl_small by assumption. reflexivity.
 Qed.
 
 Lemma memext_den s st rn rm option (sbit : bool) amount :
@@ -254,7 +298,7 @@ Proof.
     assert (opc = 1 \/ opc = 2 \/ opc = 3) as Hopc by lia.
     Ltac ldrg_case Hl Hfin Hw He Ht MA DA HA Hm' Erd sfr fixed n :=
       destruct (xzr_xsp_range sfr _ Ht) as [Hrt _];
-      destruct (b_ldr_sim_g _ _ _ _ _ _ Hw He Hrt MA DA HA fixed n _ ltac:(lia)
+      destruct (b_ldr_sim_g _ _ _ _ _ _ He Hrt MA DA HA fixed n _ ltac:(lia)
                   ltac:(first [reflexivity | (cbv beta iota; rewrite reg_bits_zr; reflexivity)]) Hm' Erd)
         as (ops' & st' & B1 & Blen & B2 & B3);
       cbn [dispatch terminating] in Hl; rewrite B1 in Hl; cbn [bind fst snd] in Hl; inversion Hl; subst; clear Hl;
@@ -262,7 +306,7 @@ Proof.
       match goal with HB2 : run_ops ?o _ = OFall ?s2 |- _ => apply (Hfin _ o (apc_setX _ _ _)); exists s2; (split; [lia|split; assumption]) end.
     Ltac ldrsg_case Hl Hfin Hw He Ht MA DA HA Hm' Erd sfr width n :=
       destruct (xzr_xsp_range sfr _ Ht) as [Hrt _];
-      destruct (b_ldrs_sim_g _ _ _ _ _ _ Hw He Hrt MA DA HA width n _ ltac:(lia) ltac:(reflexivity)
+      destruct (b_ldrs_sim_g _ _ _ _ _ _ He Hrt MA DA HA width n _ ltac:(lia) ltac:(reflexivity)
                   ltac:(rewrite reg_bits_zr; cbn; lia) ltac:(intros; rewrite reg_bits_zr; try reflexivity; try lia) Hm' Erd)
         as (ops' & st' & B1 & Blen & B2 & B3);
       cbn [dispatch terminating] in Hl; rewrite B1 in Hl; cbn [bind fst snd] in Hl; inversion Hl; subst; clear Hl;
